@@ -484,6 +484,64 @@ def check_written_dict(prog, rep):
     return n
 
 
+def check_memo_defaults(prog, rep):
+    """R7-memo: `deepcopy(memo=None)` starts every deep copy with a fresh memo; a mutable default (`memo = {}`) is ONE dictionary shared by all calls, it maps
+    id(source member) -> the first copy's member, so the second deep copy of the same object is assembled from the first copy's (possibly edited) members."""
+    n = 0
+    for m in sorted(prog.modules.values(), key=lambda m_: m_.name):
+        for c in m.classes.values():
+            for f in c.methods.values():
+                if f.name not in ("deepcopy", "__deepcopy__", "copy", "__copy__"):
+                    continue
+                a = f.node.args
+                pos = a.posonlyargs + a.args
+                pairs = list(zip(pos[len(pos) - len(a.defaults):], a.defaults)) + [(k, d) for k, d in zip(a.kwonlyargs, a.kw_defaults) if d is not None]
+                for arg, d in pairs:
+                    n += 1
+                    rep.saw(f)
+                    construct = "%s(%s=)" % (f.qualname, arg.arg)
+                    if isinstance(d, (ast.Dict, ast.List, ast.Set)) or (isinstance(d, ast.Call) and isinstance(d.func, ast.Name) and d.func.id in ("dict", "list", "set")):
+                        rep.violate("R7-memo", construct, "the default of `%s` is the mutable object %s, shared by every call: the second deep copy of an object is built from the members "
+                                    "of its first copy (shared mutable state between copies, and a copy that does not equal its source once the first copy was edited)"
+                                    % (arg.arg, dump(d)), where(f), "%s=None" % arg.arg, dump(d))
+                    else:
+                        rep.ok("R7-memo", construct, "default %s" % dump(d))
+    return n
+
+
+def check_flatten_index(prog, rep):
+    """R8-longformat: every variance / covariance matrix writes its data frame rows through core.util.array.flattenix: the k-th flattened value (C order) must come with
+    the k-th index of every axis, which is what numpy.meshgrid gives only with indexing='ij' (its default 'xy' exchanges the first two axes); both flattens are C order."""
+    try:
+        f = prog.func("pybrops.core.util.array", "flattenix")
+    except Exception:
+        rep.unrec("R8-longformat", "pybrops.core.util.array", "flattenix vanished")
+        return
+    rep.saw(f)
+    construct = f.qualname
+    mg = [c_ for c_ in walk_no_nested(f.node) if isinstance(c_, ast.Call) and (prog.dotted(f.module, c_.func) or "") == "numpy.meshgrid"]
+    if len(mg) != 1:
+        rep.unrec("R8-longformat", construct, "index vectors are not built by one numpy.meshgrid call (another formulation)")
+        return
+    kws, _ = kwargs_of(mg[0])
+    ix = kws.get("indexing")
+    if ix is None or (isinstance(ix, ast.Constant) and ix.value == "xy"):
+        rep.violate("R8-longformat", construct, "numpy.meshgrid is called %s: with the 'xy' convention the index vectors of the first two axes are exchanged while the values are "
+                    "flattened in C order - cell [i, j, ...] is exported under the labels of [j, i, ...]" % ("without indexing=" if ix is None else "with indexing='xy'"),
+                    where(f, mg[0]), "indexing='ij'", "absent" if ix is None else "'xy'")
+        return
+    if not (isinstance(ix, ast.Constant) and ix.value == "ij"):
+        rep.unrec("R8-longformat", construct, "indexing=%s" % dump(ix))
+        return
+    orders = [c_ for c_ in walk_no_nested(f.node) if isinstance(c_, ast.Call) and isinstance(c_.func, ast.Attribute) and c_.func.attr in ("flatten", "ravel")]
+    bad = [c_ for c_ in orders if c_.args and isinstance(c_.args[0], ast.Constant) and c_.args[0].value not in ("C",)]
+    kinds = {(c_.args[0].value if c_.args and isinstance(c_.args[0], ast.Constant) else "C") for c_ in orders}
+    if len(kinds) > 1 or bad:
+        rep.violate("R8-longformat", construct, "values and index vectors are flattened in different orders (%s)" % sorted(kinds), where(f, orders[0]), "'C' for both", str(sorted(kinds)))
+    else:
+        rep.ok("R8-longformat", construct, "meshgrid(indexing='ij'), values and indices flattened in the same C order")
+
+
 def run(prog, rep, tier):
     rep.explanation = ("Writer/reader table agreement per concrete class through the MRO, a path rule for the HDF5 dictionary writer "
                        "(every key is replaced, deleted or recursed on every path), and keyword/attribute agreement plus deep-copy wrapping "
@@ -495,6 +553,10 @@ def run(prog, rep, tier):
     check_copies(prog, rep, tier)
     rep.floor("R5-presence", 12)
     rep.floor("R6-whole", 12)
+    rep.floor("R7-memo", 24)
+    rep.floor("R8-longformat", 1)
+    check_flatten_index(prog, rep)
+    check_memo_defaults(prog, rep)
     check_written_dict(prog, rep)
     check_presence_guards(prog, rep)
     from rules import c16_tables
